@@ -9,7 +9,7 @@ package sm4
 // (zz_verif_asmhelpers_test.go, tag verifnohelpers): a refactoring that replaces a helper by Go code must not cost
 // the direct observation of sealAsm and openAsm.
 
-const asmDirectAvailable = true
+const zvAsmDirectAvailable = true
 
 func vSealAsm(rk *uint32, tagSize int, dst *byte, nonce, plaintext, aad []byte, temp *byte) {
 	sealAsm(rk, tagSize, dst, nonce, plaintext, aad, temp)
